@@ -98,6 +98,10 @@ CARRIERS = {
     "in_link_space": (_t("# T\n\n[ link ](/url)\n"), "inline"),
     "in_bare_url": (_t("# T\n\nhttp://example.com\n"), "inline"),
     "in_html": (_t("# T\n\n<b>inline</b>\n\n<div>\nblock\n"), "inline"),
+    "html_h1_start": (_t("<h1 align=\"center\">Title</h1>\n\ntext\n"), "heading"),
+    "html_h1_plain_start": (_t("<h1>Title</h1>\n\n## Sub\n"), "heading"),
+    "html_div_start": (_t("<div>\nblock\n</div>\n\ntext\n"), "inline"),
+    "html_comment_start": (_t("<!-- a comment -->\n\n# T\n"), "inline"),
     "in_html_open": (_t("<div>\nstill html"), "inline"),
     "in_image_noalt": (_t("# T\n\n![](/img.png)\n"), "inline"),
     "in_empty_link": (_t("# T\n\n[text]()\n\n[x](#)\n"), "inline"),
